@@ -115,7 +115,7 @@ def simple_cycles(edges):
     return out
 
 
-def gen_dag(rnd, *, cycle=None, pull_prob=0.25, parallel_prob=0.25, offsets=True, max_comps=5, orders=True, long_end=False, shipped=0.0, sparse=0.12):
+def gen_dag(rnd, *, cycle=None, pull_prob=0.25, parallel_prob=0.25, offsets=True, max_comps=5, orders=True, long_end=False, shipped=0.0, sparse=0.12, trunk_prob=0.2):
     """random coupling graph of time components (DAG, optionally one delay-resolved back edge),
     pull-based components spliced into links. cycle in (None, 'sufficient')"""
     n = rnd.randint(2, max_comps)
@@ -194,6 +194,35 @@ def gen_dag(rnd, *, cycle=None, pull_prob=0.25, parallel_prob=0.25, offsets=True
                 comps[j]["nin"] += 1
         else:
             links.append(dict(src=[f"c{i}", 0], dst=[f"c{j}", dst_in], chain=chain))
+    trunks = {}
+    if rnd.random() < trunk_prob:
+        # fan-out below an adapter: links leaving the same time-component output share a trunk of
+        # branch-capable adapters (pass-through / fixed delay); their own chains continue below it
+        by_src = {}
+        for k, ln in enumerate(links):
+            if ln["src"][0].startswith("c") and not ln.get("stateless_only"):
+                by_src.setdefault(tuple(ln["src"]), []).append(k)
+        cands = [v for v in by_src.values() if len(v) >= 2]
+        if not cands and links:
+            # create a second consumer link for some output so that a fan-out exists
+            k = rnd.choice([k for k, ln in enumerate(links) if ln["src"][0].startswith("c")] or [None])
+            if k is not None:
+                ln = links[k]
+                tcs = [c for c in comps if c["type"] == "time" and c["name"] != ln["src"][0]]
+                later = [c for c in tcs if int(c["name"][1:]) > int(ln["src"][0][1:])]
+                if later:
+                    d = rnd.choice(later)
+                    links.append(dict(src=list(ln["src"]), dst=[d["name"], d["nin"]], chain=draw_chain(rnd, maxlen=2)))
+                    d["nin"] += 1
+                    cands = [[k, len(links) - 1]]
+        if cands:
+            grp = rnd.choice(cands)
+            tchain = [rnd.choice([["scale"], ["probe"], ["dfix", rnd.choice([0, 1, 2])]]) for _ in range(rnd.randint(1, 2))]
+            trunks["0"] = dict(src=list(links[grp[0]]["src"]), chain=tchain)
+            for k in grp:
+                links[k]["trunk"] = "0"
+                # a delay in the trunk sits nearer to the source than the link's own adapters: keep the
+                # 'no delay downstream of an integration adapter' rule intact (it is the other way round here)
     if not cycle:
         for c in comps:
             if c["type"] == "time" and c["nout"] and rnd.random() < sparse:
@@ -211,8 +240,8 @@ def gen_dag(rnd, *, cycle=None, pull_prob=0.25, parallel_prob=0.25, offsets=True
     start = 0
     horizon = rnd.choice([10, 24, 37, 60]) if not long_end else rnd.choice([60, 120])
     end = start + horizon + rnd.choice([0, 0, 0.5, 1])
-    return dict(comps=comps, links=links, order=order, link_order=link_order, start=start, end=end,
-                meta=dict(n_time=n, cyclic=bool(cycle), n_pull=npull))
+    return dict(comps=comps, links=links, trunks=trunks, order=order, link_order=link_order, start=start, end=end,
+                meta=dict(n_time=n, cyclic=bool(cycle), n_pull=npull, n_trunks=len(trunks)))
 
 
 def gen_ring(rnd, klass=None, pull_prob=0.2):
